@@ -2,6 +2,7 @@
 from lib.facts import norm, direct_place, const_int, place_fields, origins, nophi
 from lib import tables
 
+INLINE = True      # crate-local helpers the rules do not know by name are inlined into their callers (lib/inline.py)
 EXPLANATION = (
     "R05.1 role pairing: for every StatsSet built by compute_stats and its closures (time, max-alloc, per-op tallies, "
     "counters) the `fastest` value derives from sorted_samples.first(), `slowest` from .last(), `median` from "
@@ -561,6 +562,8 @@ def r05_4(ctx, prog, crate):
             t = b.term(i)
             kind = None
             n += 1
+            if b.inlined_from(i):
+                continue    # a copy of a helper's block: examined in the helper's own body
             if t["k"] == "assert":
                 if t["kind"] in ("Overflow", "DivisionByZero", "RemainderByZero", "MisalignedPointerDereference", "NullPointerDereference"):
                     continue  # divisions: R05.3; dev-profile overflow / pointer checks: not decided
